@@ -4,10 +4,12 @@ from __future__ import annotations
 import ast
 
 from engine.cfg import CFG, normalise_compare, atoms
+from engine import pat
 from engine.model import AnalysisError, src, dotted, stmt_key
 from engine.util import attr_accesses, with_exprs, enumerate_paths, is_const_none, own_nodes, root_name, where, calls_with_nodes
 
 RULES = {
+    "R-17.7": "the expiration stored with an answer is the current time plus the minimum TTL of the whole chain: Answer.__init__ computes `time.time() + self.chaining_result.minimum_ttl` and nothing else feeds self.expiration (the final RRset's own TTL ignores a shorter CNAME in front of it)",
     "R-17.6": "TTLs with the top bit set are read as 0 (RFC 2181 8), so a hostile TTL cannot keep an answer cached for decades (C03 R-03.4 ttl-clamp adopted)",
     "R-17.5": "the expiration stored with a cached answer derives from the minimum TTL over the whole CNAME chain (C16 R-16.3 adopted: min-ttl accumulation and chain cursor of resolve_chaining)",
     "R-17.1": "every access to cache state happens inside the single `with self.lock` block of a public method (or in a helper only called under it)",
@@ -345,6 +347,16 @@ def run(model, rep, tier):
     rep.assume("threading.Lock provides mutual exclusion; a single critical section per operation makes each operation atomic")
     rep.share(model, "C16", {"R-16.3"}, "R-17.5", "Answer.expiration = time + ChainingResult.minimum_ttl; an overwritten minimum keeps an answer cached after a CNAME in its chain expired")
     rep.share(model, "C03", {"R-03.4"}, "R-17.6", "Answer.expiration is computed from the TTLs the wire reader stored", only=lambda o: o.stmt == "ttl-clamp")
+    # ------------------------------------------------------------------ R-17.7
+    ai = model.func("dns.resolver.Answer.__init__")
+    stores = [x for x in ast.walk(ai.node) if isinstance(x, (ast.Assign, ast.AugAssign)) and any(src(t_) == "self.expiration" for t_ in (x.targets if isinstance(x, ast.Assign) else [x.target]))]
+    if not stores:
+        rep.blind("R-17.7", ai.qualname, where(ai, ai.node), "no store to self.expiration", stmt="expiration-source")
+    for st in stores:
+        okk = isinstance(st, ast.Assign) and isinstance(st.value, ast.BinOp) and isinstance(st.value.op, ast.Add) and {src(st.value.left), src(st.value.right)} == {"time.time()", "self.chaining_result.minimum_ttl"}
+        rep.check(bool(okk), "R-17.7", ai.qualname, where(ai, st), "expiration = now + minimum TTL over the chain",
+                  f"`{src(st)[:70]}`: the expiration is not `time.time() + self.chaining_result.minimum_ttl` - e.g. taken from the final RRset's TTL, so `www 5 CNAME host` / `host 3600 A` stays cached "
+                  "for an hour after the alias expired", stmt="expiration-source")
     rep.meta["explanation"] = (
         "Lock-discipline (guarded-by) analysis of the three cache classes plus CFG dominance rules for the freshness "
         "test, path enumeration for the hit/miss counters, and structural pairing rules for the LRU ring. Decides the "
@@ -371,6 +383,10 @@ def _unlinked_before(fi, del_stmt, owner):
 
 
 WITNESSES = [
+    {"id": "c17-expiration-from-final-rrset-ttl", "rule": "R-17.7", "file": "dns/resolver.py", "expect": "fires",
+     "old": "        self.expiration = time.time() + self.chaining_result.minimum_ttl", "new": "        self.expiration = time.time() + (self.rrset.ttl if self.rrset is not None else self.chaining_result.minimum_ttl)"},
+    {"id": "c17-twin-expiration-commuted", "rule": "R-17.7", "file": "dns/resolver.py", "expect": "silent",
+     "old": "        self.expiration = time.time() + self.chaining_result.minimum_ttl", "new": "        self.expiration = self.chaining_result.minimum_ttl + time.time()"},
     {"id": "c17-resize-without-eviction", "rule": "R-17.4", "file": "dns/resolver.py", "expect": "fires",
      "old": "            self.max_size = max_size\n            while len(self.data) > self.max_size:\n                gnode = self.sentinel.prev\n                gnode.unlink()\n                del self.data[gnode.key]\n",
      "new": "            self.max_size = max_size\n"},
